@@ -48,7 +48,7 @@ def _guard_def(nm, g, prov, indent="    "):
     if g["kind"] == "attr":
         return [f"{indent}{nm} = True"]
     if g.get("async"):
-        return [f"{indent}async def {nm}(self, *args, **kwargs):", f"{indent}    return REC.guard({gid!r}, {nm!r}, kwargs)"]
+        return [f"{indent}async def {nm}(self, *args, **kwargs):", f"{indent}    return await REC.aguard({gid!r}, {nm!r}, kwargs)"]
     return [f"{indent}def {nm}(self, *args, **kwargs):", f"{indent}    return REC.guard({gid!r}, {nm!r}, kwargs)"]
 
 
